@@ -84,7 +84,7 @@ class GroupBCD(BaseSolver):
 
         all_groups = np.arange(n_groups)
         p_objs_out = np.zeros(self.max_iter)
-        stop_crit = 0.  # prevent ref before assign when max_iter == 0
+        stop_crit = np.inf  # prevent ref before assign when max_iter == 0
         accelerator = AndersonAcceleration(K=5)
 
         for t in range(self.max_iter):
